@@ -17,7 +17,19 @@ SCORES = [0, 1, 2, 5, 0.25, 0.5, 0.1, 0.07, 1.5, '+1', '+3', '+0.25', '10%', '25
           1e-05, -2e-05, 0.00009, 3.5e-07, 1e16, 2.5e+17]     # floats whose str() has an exponent
 PARENTS = [None, 1, 2, 'g']
 FIELD_KEYS = ['k', 'n']
-FIELD_VALUES = [1, 2, 'x']
+FIELD_VALUES = [1, 2, 'x', '@L3', '@L5']      # '@L<n>' stands for pedal's Location(n) (cases stay plain JSON)
+
+
+def decode_fields(fields):
+    from pedal.core.location import Location
+    return {k: Location(int(v[2:])) if isinstance(v, str) and v.startswith('@L') else v for k, v in fields.items()}
+
+
+def encode_value(v):
+    if type(v).__name__ == 'Location':
+        rest = (v.col, v.end_line, v.end_col, v.filename)
+        return '@L%s' % v.line if rest == (None, None, None, None) else '@L%s%r' % (v.line, rest)
+    return v
 
 CTORS = ['Feedback', 'explain', 'gently', 'compliment', 'give_partial', 'set_correct', 'guidance', 'system_error',
          'log', 'subclass']
@@ -165,7 +177,7 @@ def build_feedback(spec):
     from pedal.core.feedback import Feedback
     ctor, kw = spec['ctor'], dict(spec['kw'])
     if 'fields' in kw:
-        kw['fields'] = dict(kw['fields'])
+        kw['fields'] = decode_fields(kw['fields'])
     if ctor == 'unit_test':
         from pedal.assertions.commands import unit_test
         tests = []
@@ -213,9 +225,13 @@ def concrete_suppression(s, created):
         cat = cat.swapcase()
     fields = None
     if 'fields' in form:
-        fields = {k: v for k, v in fb.fields.items() if k in FIELD_KEYS}
+        fields = {k: encode_value(v) for k, v in fb.fields.items() if k in FIELD_KEYS}
         if s['spoil_field']:
-            fields['k'] = 'other'
+            loc = [k for k, v in fields.items() if isinstance(v, str) and v.startswith('@L')]
+            if loc:
+                fields[loc[0]] = '@L3' if fields[loc[0]] != '@L3' else '@L5'      # the same kind of value, another place
+            else:
+                fields['k'] = 'other'
     return {'category': cat, 'label': label, 'fields': fields}
 
 
@@ -243,7 +259,7 @@ def replay_scenario(case):
 
     def issue(s):
         concrete.append(s)
-        suppress(s['category'], s['label'], dict(s['fields']) if s['fields'] is not None else None)
+        suppress(s['category'], s['label'], decode_fields(s['fields']) if s['fields'] is not None else None)
 
     created = []
     for i, spec in enumerate(case['specs']):
